@@ -207,8 +207,35 @@ func c14Prop(rt *rapid.T, rec *ev.Recorder) {
 				removes++
 			}
 		}
-		if err := S.reorg(pt); err != nil {
-			fatal(rt, "Reorg(%d): %v", pt, err)
+		handled := false
+		if removes > 0 && rapid.IntRange(0, 2).Draw(rt, "faultDuringReorg") == 0 {
+			// the reorg's own transaction fails (each row-writing statement in turn): a reorg that failed has removed nothing,
+			// so it must not clear the condition; the driver retries it
+			inj := newFaultInjector(path)
+			for kth := 1; kth <= 40 && !handled; kth++ {
+				inj.armAbort(kth)
+				ferr := S.reorg(pt)
+				inj.disarm()
+				if ferr == nil {
+					handled = true
+					break
+				}
+				if !halted() {
+					fatal(rt, "[%s] Reorg(%d) failed (statement writing row %d: %v) and removed nothing, but the halted state is cleared", k, pt, kth, ferr)
+				}
+				if kth == 1 {
+					checkHalted(fmt.Sprintf("after a failed Reorg(%d)", pt))
+				}
+				rec.Class("failed_reorgs_while_halted")
+			}
+			inj.exec("DROP TABLE vf_cnt")
+			inj.close()
+			key += "F"
+		}
+		if !handled {
+			if err := S.reorg(pt); err != nil {
+				fatal(rt, "Reorg(%d): %v", pt, err)
+			}
 		}
 		key += fmt.Sprintf("reorg%d(-%d)|", pt, removes)
 		if removes == 0 {
